@@ -223,6 +223,41 @@ def clf_case(ctx, k):
             return
 
 
+def check_estimator_float64(ctx, rs, rep):
+    """continuous features, double-precision evidence that is not single-precision: completions and conditional samples must keep
+    every given entry bit for bit (as the wrapped circuit's mpe / sample do)"""
+    n_feat = int(rs.randint(2, 5))
+    X = (rs.randn(int(rs.choice([80, 160])), n_feat) * rs.uniform(0.5, 3, size=n_feat) + rs.uniform(-5, 1000, size=n_feat)).astype(np.float32)
+    est = SPNEstimator([Gaussian] * n_feat, learn_leaf='mle', split_rows='kmeans', split_cols='rdc', min_rows_slice=40, random_state=int(rs.randint(1000)), verbose=False)
+    try:
+        est.fit(X)
+    except Exception:
+        ctx.count('fit-did-not-return')
+        return
+    Q = X[:12].astype(np.float64) * (1.0 + 3e-10) + 1e-10
+    Q[rs.rand(*Q.shape) < 0.4] = np.nan
+    Q[0, :] = np.nan
+    obs = ~np.isnan(Q)
+    rep = dict(rep, X=np.where(np.isnan(Q), None, Q).tolist())
+    for name, fn in (('mpe', lambda: est.mpe(Q.copy())), ('sample', lambda: est.sample(X=Q.copy()))):
+        np.random.seed(int(rs.randint(2 ** 31 - 1)))
+        try:
+            out = np.asarray(fn())
+        except Exception as ex:
+            ctx.violation(f'c20-estimator-{name}-raises', f'estimator {name} raised {type(ex).__name__}: {ex} on double-precision evidence', replay=rep)
+            return
+        ctx.count(f'estimator-float64-{name}')
+        if out.shape != Q.shape or np.isnan(out).any():
+            ctx.violation(f'c20-estimator-{name}-incomplete', f'estimator {name}: wrong shape or unfilled entries', replay=rep)
+            return
+        bad = obs & ~(out == Q)
+        if bad.any():
+            r, c = np.argwhere(bad)[0]
+            ctx.violation(f'c20-estimator-{name}-evidence-changed', f'estimator {name} returned {out[r, c]!r} for the given entry {Q[r, c]!r} (double-precision evidence)',
+                          replay=rep)
+            return
+
+
 def run(ctx):
     n = 14 if ctx.tier == 'quick' else 200
     for k in range(n):
@@ -233,6 +268,10 @@ def run(ctx):
         rs = np.random.RandomState(np_seed(ctx.sub_rng('est', k)))
         ctx.case('estimator', nontrivial_key=('est', k), sample=dict(kind='estimator', k=k))
         check_estimator(ctx, rs, dict(kind='c20-est', k=k, seed=ctx.seed))
+        if ctx.n_new(with_input_only=True) >= 3:
+            return
+        ctx.case('estimator-float64', nontrivial_key=('est64', k), sample=dict(kind='estimator-float64', k=k))
+        check_estimator_float64(ctx, rs, dict(kind='c20-est64', k=k, seed=ctx.seed))
         if ctx.n_new(with_input_only=True) >= 3:
             return
 
